@@ -204,12 +204,10 @@ theorem jump_form (p : GudJump.P) (hC : p.Cb ≠ 0) :
     ∧ GudJump.R1 p = p.Rb * (1 + p.Vb) / (1 + GudJump.V1 p)
     ∧ GudJump.C1 p ^ 2 = Real.sqrt (p.Cb ^ 2 + 1 / 2 * (p.gamma_d - 1) * ((1 + p.Vb) ^ 2 - (1 + GudJump.V1 p) ^ 2)) ^ 2 := by
   simp only [epv_tree]
-  split_ifs with h0 h1
-  · simp only [epv_leaf]; epv_semi_gud_conj
-  · simp only [epv_leaf]; epv_semi_gud_conj
-  · exfalso
-    simp only [epv_cond] at h0 h1
-    exact hC (le_antisymm (not_lt.mp h0) (not_lt.mp h1))
+  split_ifs <;>
+    first
+    | (exfalso; simp only [epv_cond] at *; exact hC (by linarith))
+    | (simp only [epv_leaf]; epv_semi_gud_conj)
 
 /-- the start values at the converging shock x = -1 (strong-shock values), all branches -/
 theorem start_form (p : GudJump.P) :
